@@ -1,7 +1,7 @@
 (* C10 — each returned slice is the solution at the height the grid reports for it.
    Only statements, `exact`, Print Assumptions. *)
 From Coq Require Import ZArith List Bool.
-From BL Require Import Base.Ops Base.Laws Model.Solver Proofs.StepProofs Proofs.ModeProofs Proofs.SpecProofs Proofs.C10Proofs.
+From BL Require Import Base.Ops Base.Laws Model.Solver Model.KernelPy Proofs.StepProofs Proofs.ModeProofs Proofs.SpecProofs Proofs.C10Proofs Proofs.KernelBridgeLemmas.
 Import ListNotations.
 
 (* For ANY list of valid levels (any order, repetitions, any length) slot k of the result is the
@@ -33,5 +33,51 @@ Theorem C10_record : forall (O : Ops), Laws O ->
     nth k rq d = snd (nth (nth k levels 0%nat) (traj O lx ly layers st0) (d, d)).
 Proof. exact ivp_spec. Qed.
 
+(* ---- the control structure of the kernel, as loops (what Bridge/KernelBridge.v instantiates with the loop bodies
+   translated from the current source; no field law is involved) *)
+
+(* a loop over the slots whose body is, slot by slot, `if levels[k] == i: a[k] = x; b[k] = y` IS the model's record of
+   both columns - any level list (repeats, out-of-range entries), any previous contents *)
+Theorem C10_recording_loop_is_record : forall (O : Ops)
+  (f : list (C O) * list (C O) -> nat -> list (C O) * list (C O)) (levels : list nat) (i : nat) (x y : C O) rp rq,
+  length rp = length levels -> length rq = length levels ->
+  (forall k a b, (k < length levels)%nat ->
+     f (a, b) k = if Nat.eqb (nth k levels 0%nat) i then (pyset a k x, pyset b k y) else (a, b)) ->
+  fold_left f (seq 0 (length levels)) (rp, rq) = (record O levels i x rp, record O levels i y rq).
+Proof. exact record_fold2. Qed.
+
+(* a loop `for i in range(nz - 1)` over (p, q, column, column) whose body is, layer by layer, `record p; record q;
+   step of layer i` with the layer read off the profile arrays BY INDEX is the model's ivp_loop over the zipped layers -
+   any column length, any level list, any initial state and column contents *)
+Theorem C10_layer_loop_is_ivp_loop : forall (O : Ops)
+  (F : C O * C O * list (C O) * list (C O) -> nat -> C O * C O * list (C O) * list (C O))
+  lx ly (u v Kx Ky Kz z : list (C O)) (levels : list nat) p0 q0 rp rq,
+  (length z - 1 <= length u)%nat -> (length z - 1 <= length v)%nat -> (length z - 1 <= length Kx)%nat ->
+  (length z - 1 <= length Ky)%nat -> (length z - 1 <= length Kz)%nat ->
+  length rp = length levels -> length rq = length levels ->
+  (forall i p q rp rq, (i < length z - 1)%nat -> length rp = length levels -> length rq = length levels ->
+     F (p, q, rp, rq) i
+     = (let s := step O lx ly (mkLayer O (nth i Kx (c0 O)) (nth i Ky (c0 O)) (nth i u (c0 O)) (nth i v (c0 O))
+                                         (nth i Kz (c0 O)) (nth i (diffs O z) (c0 O))) (p, q) in
+        (fst s, snd s, record O levels i p rp, record O levels i q rq))) ->
+  fold_left F (seq 0 (length z - 1)) (p0, q0, rp, rq)
+  = flat4 O (ivp_loop O lx ly (layers_of O z (mkProf O u v Kx Ky Kz)) 0%nat levels (p0, q0) rp rq).
+Proof. exact ivp_fold_bridge. Qed.
+
+(* the same for the mean mode: `record; trapezoid update with Kz[i], Kz[i+1], dz[i]`, then the final record *)
+Theorem C10_mean_loop_is_mean_loop : forall (O : Ops)
+  (F : C O * list (C O) -> nat -> C O * list (C O)) q00 (z Kz : list (C O)) (levels : list nat) p000 rec,
+  (length z <= length Kz)%nat -> (1 <= length z)%nat -> length rec = length levels ->
+  (forall i p r, (i < length z - 1)%nat -> length r = length levels ->
+     F (p, r) i = (mean_update O p q00 (nth i (diffs O z) (c0 O)) (nth i Kz (c0 O)) (nth (S i) Kz (c0 O)),
+                   record O levels i p r)) ->
+  (let s := fold_left F (seq 0 (length z - 1)) (p000, rec) in
+   (fst s, record O levels (length z - 1) (fst s) (snd s)))
+  = mean_loop O q00 (diffs O z) Kz 0%nat levels p000 rec.
+Proof. exact mean_fold_bridge. Qed.
+
 Goal True. idtac "THEOREM C10_slice_is_level". Abort. Print Assumptions C10_slice_is_level.
 Goal True. idtac "THEOREM C10_record". Abort. Print Assumptions C10_record.
+Goal True. idtac "THEOREM C10_recording_loop_is_record". Abort. Print Assumptions C10_recording_loop_is_record.
+Goal True. idtac "THEOREM C10_layer_loop_is_ivp_loop". Abort. Print Assumptions C10_layer_loop_is_ivp_loop.
+Goal True. idtac "THEOREM C10_mean_loop_is_mean_loop". Abort. Print Assumptions C10_mean_loop_is_mean_loop.
